@@ -109,6 +109,11 @@ func line(
 		}
 	}
 
+	if ring != nil && len(ring) == 0 {
+		// a line with fewer than two distinct vertices crosses no rows
+		return ring
+	}
+
 	if ring != nil && uint32(y) == ring[0][1] {
 		ring = ring[:len(ring)-1]
 	}
